@@ -10,6 +10,41 @@ TRUST = ("Trusted: Lean 4.33 kernel (axioms ⊆ {propext, Classical.choice, Quot
 
 # id -> (category, text, note, technique, design_ref)
 CLAIMS = {
+ "C03": ("proof",
+         "Lean permutation-invariance lemma per loop schema (copy-all, delete-all, collect-then-sort, any-match, min-key, keyed copy, guarded fallback …) and C03_sites_order_independent: every `range` over a map and every reflect MapKeys/MapRange call in the package, regenerated from the Go source with its schema, is order-insensitive or in a justified allow-list; the key comparator of sortedMapKeys is modelled and proved a total order on everything observable (C03_sorted_keys_total_order, any number of NaN keys), hash literals are last-wins in source order, merge is stable, the date-format translation is a single left-to-right pass (C03_dateformat_single_pass). "
+         "Tie: 46 extracted map-iteration sites re-classified on every run; programs over nested/typed/interface-keyed maps rendered 30× in-process and in child processes; 16 155 date formats against time.Format of the model's layout. Known findings: printing addresses / macro objects, pointer keys with equal content, printing a map with several NaN keys.",
+         TRUST + "Schema recognisers are syntactic and conservative; error-text nondeterminism (which of several failing `with` expressions is reported) is counted, not treated as a violation.",
+         "Lean 4 proof (permutation invariance per schema, total-order proof of the comparator) + regenerated site table + repeated-render / fresh-process oracle", "DESIGN.md §4 C03"),
+ "C06": ("proof",
+         "Lean theorem C06_confinement over the validated whole-pipeline model, for EVERY environment, policy, template set, fuel and nesting: every filter/function event emitted inside the dynamic extent of `include … sandboxed` (tracked by a ghost flag the code never reads) is on the policy's allow-lists; C06_flag_invariant: all twelve context derivations (include in three forms, extends, import, from, macro call, block transfer, parent()) preserve `inside → sandboxed`; a denied call is a security error and emits no event; outside the sandbox and for allowed names behaviour is unchanged; pinned-tree counterexamples by kernel evaluation. "
+         "Tie: the eight sandbox facts (policy checks dominating every dynamic FilterFunc/FunctionFunc call found by TYPE, flag propagation at every NewRenderContext/Clone site) are regenerated from the Go source (C06_facts_current); 24 positions × 10 routes with forbidden/allowed/outside variants and random sandboxed programs with random policies, spy callbacks counted on the real engine and compared with the model's trace.",
+         TRUST + "Callbacks themselves are opaque; IsTagAllowed is never consulted by the engine (outside the property).",
+         "Lean 4 proof (ghost-flag invariant, induction on fuel + mutual structural induction) + regenerated sandbox facts + differential correspondence with spy counters", "DESIGN.md §4 C06"),
+ "C07": ("proof",
+         "Lean theorems for ALL byte strings about the byte-wise escaper (the html.EscapeString table): no raw < > \" ' and every & starts one of the five references (C07_no_raw), decoding gives back the input (C07_roundtrip), all other bytes unchanged (C07_others_unchanged), e ≡ escape (C07_alias on the registration table), plus the fallback escaper for valid UTF-8 with its invalid-UTF-8 counterexample (reachable only with a nil environment). "
+         "Tie: 22 application routes (print, chain, apply, macro via _self/import/from, include, for, set × e/escape) on all 256 bytes and all 65 536 byte pairs exhaustively, invalid UTF-8, 1 MiB strings, non-string values; Go's html.UnescapeString as the independent decoder.",
+         TRUST + "Trusted: html.EscapeString is the byte-wise replacer modelled (validated exhaustively on pairs).",
+         "Lean 4 proof (per-byte lemma + induction) + exhaustive small-scope correspondence", "DESIGN.md §4 C07"),
+ "C08": ("proof",
+         "Lean theorems about the REAL model parser (the fuel-indexed transliteration of parser.go): the minimal-parenthesis and the full-parenthesis spelling of every expression tree over prefix/binary operators, argument-less tests and the conditional parse back to that tree (C08_parse_printMin/_printFull, hence equal values), left associativity, precedence order or < and < comparison < additive < multiplicative < power (C08_table_order), fuel monotonicity and adequacy on EVERY token list, lexer spacing invariance (C08_lex_spacing), exact integer arithmetic/comparison/concatenation and error cases (C08_arith_exact), short-circuit and one-branch conditional for any right operand (C08_short_circuit_*). "
+         "Tie: precedence table, operator words and climbing structure regenerated from getOperatorPrecedence/peekBinaryOperator/parseBinaryPrec (C08_facts_current); every ordered operator pair × both groupings, random trees in minimal/full/random spellings, ten syntactic positions, spy-observed short-circuit, arithmetic against math/big.",
+         TRUST + "Not covered by the round-trip theorem: tests with arguments, attribute/index/filter/call suffixes, array/hash literals and the eight positions (covered by the correspondence only). Floats beyond ±2^53 and non-integral results are outside the property and `unsupported` in the model.",
+         "Lean 4 proof (Pratt-parser round trip, fuel adequacy) + regenerated precedence facts + differential correspondence", "DESIGN.md §4 C08"),
+ "C09": ("proof",
+         "Lean theorems over the validated whole-pipeline model: falsy table (C09_falsy_table); an if/elseif/else chain of any length renders exactly the first truthy branch, later conditions are not evaluated (C09_if_chain_*); for over lists, maps and ASCII strings unrolls to one body rendering per element in order with value/key/loop bound and state threaded between iterations, else exactly when nothing to iterate (C09_for_*), loop counters (C09_loop_meta), the surrounding loop variable is restored (C09_nested), set is visible to everything after it incl. later iterations (C09_set_visible, _persists), range = inclusive arithmetic progression, error for step 0 (C09_range). "
+         "Tie: random programs nesting if/for/set/include/apply/verbatim over every value kind rendered by the real engine and by the Lean pipeline from source; loop metadata for every length (lists and typed slices) checked directly.",
+         TRUST + "Non-ASCII string loops and ranges over 10 000 elements are `unsupported` in the model (C09_for_string_partial names the exclusion); covered by the direct oracles only.",
+         "Lean 4 proof (loop unrolling by induction on the item list, chain induction) + differential correspondence", "DESIGN.md §4 C09"),
+ "C16": ("proof",
+         "Lean theorems about the byte-exact model of the compiled-template container: decode (encode c) = c for every content below 2^32 bytes (C16_roundtrip), encode is injective and prefix-free, decode is total and never allocates beyond the input length (C16_decode_total, C16_alloc_bounded), every strict prefix of an encoding is rejected (C16_prefix_rejected, full strength after the repair), loading a compiled template re-parses exactly the stored source (C16_load_equiv), 4 GiB truncation shown on lengths. "
+         "Tie: byte-for-byte encode comparison, every truncation and every single-position mutation of small encodings, junk suffixes, legacy gob streams, measured allocation; end to end through RegisterCompiledTemplate / LoadFromCompiledData / CompiledLoader in a temp dir rendered against the source engine.",
+         TRUST + "The gob/AST payload is modelled as opaque bytes (it never decodes in practice: the source is always re-parsed — checked by experiment); encoding/gob and encoding/binary are trusted.",
+         "Lean 4 proof (codec round trip, prefix-freeness) + differential correspondence", "DESIGN.md §4 C16"),
+ "C17": ("proof",
+         "Lean theorem over the validated whole-pipeline model: for every program without `<expr>.attr is defined` and every n, if the fault-free render performs more than n callback invocations then failing the n-th yields exactly an error carrying cause n and no output (C17_propagates_partial; the full statement is refuted by C17_counterexample_isdefined — a recorded finding); unknown filter/function/test/macro/template are errors (C17_unresolved); undefined variables/attributes and `ignore missing` are the only tolerances (C17_tolerances, _only). "
+         "Tie: every statement of the render path that discards an error, regenerated from the Go source, equals a 22-entry justified allow-list (C17_facts_current); fault injection at every spy invocation of generated programs (include/extends/parent/import/from/macros/loops) with errors.As on the sentinel, unresolved names, a failing custom loader reached by include/extends/import/from.",
+         TRUST + "One allow-listed drop site (renderVariableString, macro-body text containing a literal `{{`) is outside the model and not verified.",
+         "Lean 4 proof (parallel-run simulation up to the failing invocation) + regenerated error-drop table + fault-injection correspondence", "DESIGN.md §4 C17"),
  "C10": ("proof",
          "Lean theorems over the validated whole-pipeline model for extends chains of ANY length: the root pass hands the base template exactly the list of definitions of every block, most derived first (C10_registerBlocks_spec); an extending template renders none of its own top-level nodes (C10_child_text_no_output); every block node, wherever it stands, renders the head of that list, an empty override renders nothing (C10_block_renders_most_derived, C10_empty_override); parent() renders the next definition with the same variables and restores the level, error when there is none (C10_parent); nothing but the root pass changes the block table (C10_frame); C10_substitution ties renderTop of the most derived template to the base rendered under the chain's table. "
          "Tie: every assignment of omit/define/blank/parent() for ≤ 3 levels × ≤ 2 blocks and sampled chains to 5 levels, rendered by the real engine, by the Lean pipeline from source, and by an independent substitution spec written in the harness.",
